@@ -316,7 +316,12 @@ class Server(base_server.BaseServer):
                         r = self._ok(jsonp_index=jsonp_index)
                     except exceptions.EngineIOError:
                         if sid in self.sockets:  # pragma: no cover
-                            self.disconnect(sid)
+                            # do not wait for the client to drain its queue,
+                            # it may be waiting for this very response
+                            socket.close(
+                                wait=False,
+                                reason=self.reason.SERVER_DISCONNECT)
+                            self.sockets.pop(sid, None)
                         r = self._bad_request()
                     except:  # pragma: no cover
                         # for any other unexpected errors, we log the error
